@@ -1,10 +1,135 @@
 /-
-  TwProofs.C02 — property theorems (see DESIGN.md, section 6).
+  TwProofs.C02 — `@if / @elseif / @else` renders exactly the first truthy branch.
+
+  Theorems about the model's evaluator (tied to `evaluator.go` by the correspondence check):
+  the construct's value is the body of the first branch whose condition is truthy — the later
+  conditions do not occur in the result at all, so nothing in them (errors included) can
+  surface — else the `@else` body, else nothing; one truthiness function decides `@if`, the
+  ternary, `@breakIf` and `@continueIf`; text around the construct is concatenated unchanged.
 -/
 import TwModel
 import TwSpec
+import TwProofs.Lemmas.EvalStep
+import TwProofs.Lemmas.EvalMono
 
 namespace Tw.C02
 open Tw
+
+/-! ### truthiness -/
+
+/-- the falsy values are exactly false, nil, 0, 0.0 and the empty string -/
+theorem falsy_iff (v : Val) :
+    isTruthy v = false ↔
+      v = .bool false ∨ v = .nil ∨ v = .int 0 ∨ (∃ x, v = .float x ∧ (x != 0.0) = false) ∨ v = .str [] := by
+  cases v with
+  | bool x => cases x <;> simp [isTruthy]
+  | nil => simp [isTruthy]
+  | int x => simp [isTruthy]
+  | float x => simp [isTruthy]
+  | str s => cases s <;> simp [isTruthy]
+  | arr xs => simp [isTruthy]
+  | obj kvs => simp [isTruthy]
+
+/-- empty arrays and empty objects are truthy -/
+theorem empty_containers_truthy : isTruthy (.arr []) = true ∧ isTruthy (.obj []) = true := ⟨rfl, rfl⟩
+
+/-! ### the first truthy branch -/
+
+/-- a truthy `@if` condition: the result is the consequence block alone; `alts` and `alt` do not
+    occur on the right-hand side, so they are never evaluated -/
+theorem if_true (f : Nat) (c : Ctx) (env : Env) (t : Token) (cnd : Expr) (cons : List Stmt)
+    (alts : List (Expr × List Stmt)) (alt : Option (List Stmt)) (v : Val)
+    (hc : evalExpr f c env cnd = .ok v) (hv : isTruthy v = true) :
+    evalStmt (f + 1) c env (.ifS t cnd cons alts alt) = (evalBlock f c env.push cons).bind fun r => .ok (r.1, env) := by
+  rw [evalStmt_ifS, hc, Res.bind_ok, if_pos hv]
+
+theorem if_false (f : Nat) (c : Ctx) (env : Env) (t : Token) (cnd : Expr) (cons : List Stmt)
+    (alts : List (Expr × List Stmt)) (alt : Option (List Stmt)) (v : Val)
+    (hc : evalExpr f c env cnd = .ok v) (hv : isTruthy v = false) :
+    evalStmt (f + 1) c env (.ifS t cnd cons alts alt) = evalElseIfs f c env alts alt := by
+  rw [evalStmt_ifS, hc, Res.bind_ok, if_neg (by rw [hv]; simp)]
+
+/-- an error in the `@if` condition is the construct's error -/
+theorem if_cond_error (f : Nat) (c : Ctx) (env : Env) (t : Token) (cnd : Expr) (cons : List Stmt)
+    (alts : List (Expr × List Stmt)) (alt : Option (List Stmt)) (code : String) (line : Nat) (args : List Bytes)
+    (hc : evalExpr f c env cnd = .err code line args) :
+    evalStmt (f + 1) c env (.ifS t cnd cons alts alt) = .err code line args := by
+  rw [evalStmt_ifS, hc, Res.bind_err]
+
+/-- **the `@elseif` chain**: when the conditions of `pre` are all falsy and the next one is truthy,
+    the result is that branch's body — whatever `post` and `alt` are (they are not evaluated) -/
+theorem elseifs_first_truthy (f : Nat) (c : Ctx) (env : Env) (ce : Expr) (body : List Stmt)
+    (post : List (Expr × List Stmt)) (alt : Option (List Stmt)) (v : Val)
+    (hce : evalExpr f c env ce = .ok v) (hv : isTruthy v = true) :
+    ∀ (pre : List (Expr × List Stmt)),
+      (∀ p ∈ pre, ∃ w, evalExpr f c env p.1 = .ok w ∧ isTruthy w = false) →
+      evalElseIfs (f + pre.length + 1) c env (pre ++ (ce, body) :: post) alt =
+        (evalBlock f c env.push body).bind fun r => .ok (r.1, env)
+  | [], _ => by
+    rw [List.nil_append, List.length_nil, Nat.add_zero, evalElseIfs_cons, hce, Res.bind_ok, if_pos hv]
+  | p :: pre, hpre => by
+    obtain ⟨w, hw, hwf⟩ := hpre p List.mem_cons_self
+    have hw' : evalExpr (f + (pre.length + 1)) c env p.1 = .ok w := by
+      rw [evalExpr_mono f (pre.length + 1) c env p.1 (by rw [hw]; simp), hw]
+    rw [List.cons_append, List.length_cons, show f + (pre.length + 1) + 1 = (f + (pre.length + 1)) + 1 from rfl]
+    obtain ⟨pe, pb⟩ := p
+    rw [evalElseIfs_cons, hw', Res.bind_ok, if_neg (by rw [hwf]; simp)]
+    rw [show f + (pre.length + 1) = f + pre.length + 1 from rfl]
+    exact elseifs_first_truthy f c env ce body post alt v hce hv pre (fun q hq => hpre q (List.mem_cons_of_mem _ hq))
+
+/-- no condition is truthy: the `@else` body when there is one, nothing otherwise -/
+theorem elseifs_none_truthy (f : Nat) (c : Ctx) (env : Env) (alt : Option (List Stmt)) :
+    ∀ (alts : List (Expr × List Stmt)),
+      (∀ p ∈ alts, ∃ w, evalExpr f c env p.1 = .ok w ∧ isTruthy w = false) →
+      evalElseIfs (f + alts.length + 1) c env alts alt =
+        match alt with
+        | some ab => (evalBlock f c env.push ab).bind fun r => .ok (r.1, env)
+        | none => .ok ({}, env)
+  | [], _ => by
+    rw [List.length_nil, Nat.add_zero, evalElseIfs_nil]
+  | p :: alts, hall => by
+    obtain ⟨w, hw, hwf⟩ := hall p List.mem_cons_self
+    have hw' : evalExpr (f + (alts.length + 1)) c env p.1 = .ok w := by
+      rw [evalExpr_mono f (alts.length + 1) c env p.1 (by rw [hw]; simp), hw]
+    obtain ⟨pe, pb⟩ := p
+    rw [List.length_cons, show f + (alts.length + 1) + 1 = (f + (alts.length + 1)) + 1 from rfl,
+      evalElseIfs_cons, hw', Res.bind_ok, if_neg (by rw [hwf]; simp)]
+    rw [show f + (alts.length + 1) = f + alts.length + 1 from rfl]
+    exact elseifs_none_truthy f c env alt alts (fun q hq => hall q (List.mem_cons_of_mem _ hq))
+
+/-! ### the same truthiness everywhere -/
+
+theorem ternary_uses_truthiness (f : Nat) (c : Ctx) (env : Env) (t : Token) (cnd a bb : Expr) (v : Val)
+    (hc : evalExpr f c env cnd = .ok v) :
+    evalExpr (f + 1) c env (.tern t cnd a bb) = if isTruthy v then evalExpr f c env a else evalExpr f c env bb := by
+  rw [evalExpr_tern, hc]
+
+theorem breakIf_uses_truthiness (f : Nat) (c : Ctx) (env : Env) (t : Token) (cnd : Expr) (v : Val)
+    (hc : evalExpr f c env cnd = .ok v) :
+    evalStmt (f + 1) c env (.breakIf t cnd) = .ok ({ brk := isTruthy v }, env) := by
+  rw [evalStmt_succ]; simp only [stmtBody, calleesAt]; rw [hc, Res.bind_ok]
+
+theorem continueIf_uses_truthiness (f : Nat) (c : Ctx) (env : Env) (t : Token) (cnd : Expr) (v : Val)
+    (hc : evalExpr f c env cnd = .ok v) :
+    evalStmt (f + 1) c env (.continueIf t cnd) = .ok ({ cont := isTruthy v }, env) := by
+  rw [evalStmt_succ]; simp only [stmtBody, calleesAt]; rw [hc, Res.bind_ok]
+
+/-! ### text around the construct is unaffected -/
+
+/-- a program is rendered statement by statement: the text of what precedes a statement is kept
+    in front of its output, what follows is appended (at any nesting depth: the same holds for
+    blocks, `evalBlock_cons`) -/
+theorem text_before_is_kept (f : Nat) (c : Ctx) (env : Env) (t : Token) (rest : List Stmt) (acc : Bytes) :
+    evalProg (f + 1 + 1) c env (.html t :: rest) acc = evalProg (f + 1) c env rest (acc ++ t.lit) := by
+  rw [evalProg_cons, evalStmt_html, Res.bind_ok]
+
+theorem text_after_is_appended (f : Nat) (c : Ctx) (env : Env) (t : Token) (acc : Bytes) :
+    evalProg (f + 1 + 1 + 1) c env [.html t] acc = .ok (acc ++ t.lit, env) := by
+  rw [evalProg_cons, evalStmt_html, Res.bind_ok, evalProg_nil]
+
+/-! ### non-vacuity and an end-to-end instance -/
+
+example : (match evaluateStringPure [] (b "a@if(0)x@elseif(\"\")y@elseif([])z@elseif(1 % 0)w@else v@end b") [] with
+    | .ok out => out == b "az b" | _ => false) = true := by decide +kernel
 
 end Tw.C02
